@@ -66,7 +66,7 @@ from spyne.model import Any, ModelBase, Array, Iterable, ComplexModelBase, \
     XmlAttribute
 from spyne.model.binary import BINARY_ENCODING_BASE64
 from spyne.model.enum import EnumBase
-from spyne.model.primitive import AnyUri
+from spyne.model.primitive import AnyUri, Double, Float, Date
 
 from spyne.protocol import ProtocolBase
 
@@ -108,6 +108,12 @@ def _is_substitutable(newclass, cls):
         if _same_type(c, cls):
             return True
         c = getattr(c, '__extends__', None)
+
+    # these extend another primitive in python while their schema types are
+    # not derived from its schema type (eg. xs:double is no xs:decimal).
+    for c in (Double, Float, Date, AnyUri):
+        if issubclass(newclass, c) and not issubclass(cls, c):
+            return False
 
     return issubclass(newclass, cls)
 
